@@ -54,7 +54,8 @@ pub struct Case {
     #[serde(default)]
     pub shift: f32,
     /// how the input sets are handed over: 0 Vec, 1 filtered iterator (size hint 0..n),
-    /// 2 Vec chained with a filtered iterator (lower size hint < n), 3 map_while iterator
+    /// 2 Vec chained with a filtered iterator (lower size hint < n), 3 map_while iterator,
+    /// 4 filter over a source twice as long (upper size hint 2n)
     #[serde(default)]
     pub iter_kind: u8,
     /// pairs of inputs whose initial distance is infinite (methods 0-2; JSON has no infinite numbers)
@@ -182,11 +183,16 @@ pub fn check(c: &Case, stats: &mut Stats) -> CheckResult {
             let half = sets.len() / 2;
             let mut tail = sets;
             let head: Vec<HpoSet> = tail.drain(..half).collect();
-            let input: Box<dyn Iterator<Item = HpoSet>> = match c.iter_kind % 4 {
+            let input: Box<dyn Iterator<Item = HpoSet>> = match c.iter_kind % 5 {
                 0 => Box::new(head.into_iter().chain(tail).collect::<Vec<HpoSet>>().into_iter()),
                 1 => Box::new(head.into_iter().chain(tail).filter(|_| true)),
                 2 => Box::new(head.into_iter().chain(tail.into_iter().filter(|_| true))),
-                _ => Box::new(head.into_iter().chain(tail).map_while(Some)),
+                3 => Box::new(head.into_iter().chain(tail).map_while(Some)),
+                // a lazy filter over a longer source: the upper size bound is twice what it yields
+                _ => {
+                    let padded: Vec<HpoSet> = head.into_iter().chain(tail).flat_map(|s| [s, HpoSet::new(o, HpoGroup::new())]).collect();
+                    Box::new(padded.into_iter().enumerate().filter(|(i, _)| i % 2 == 0).map(|(_, s)| s))
+                }
             };
             let l = match method {
                 0 => Linkage::single(input, &distance),
@@ -287,7 +293,7 @@ pub fn check(c: &Case, stats: &mut Stats) -> CheckResult {
     // (how often the callback is invoked after the initial call is not part of the property)
     stats.count(&format!("callback-invocations:{mname}"), log.len() as u64);
     stats.label(mname);
-    if c.iter_kind % 4 != 0 {
+    if c.iter_kind % 5 != 0 {
         stats.label("input-iterator-without-exact-size");
     }
     let neg = clusters.iter().filter(|c| c.2 < 0.0).count();
@@ -327,7 +333,7 @@ pub fn check(c: &Case, stats: &mut Stats) -> CheckResult {
 
 fn strategy(tier: Tier) -> BoxedStrategy<Case> {
     let max = if tier == Tier::Quick { 24usize } else { 40 };
-    (2..=max, 0u8..4, vec(any::<u16>(), NT as usize), vec(0u8..8, 40), vec(any::<u32>(), 40 * 40), any::<u64>(), proptest::bool::weighted(0.15), 0u8..4, 0u8..4, (0u8..10, vec((any::<u16>(), any::<u16>()), 1..6), any::<bool>(), prop_oneof![8 => Just(0i8), 1 => Just(-10i8), 1 => Just(-9i8), 1 => -30i8..=-5, 1 => 5i8..=30]))
+    (2..=max, 0u8..4, vec(any::<u16>(), NT as usize), vec(0u8..8, 40), vec(any::<u32>(), 40 * 40), any::<u64>(), proptest::bool::weighted(0.15), 0u8..4, 0u8..5, (0u8..10, vec((any::<u16>(), any::<u16>()), 1..6), any::<bool>(), prop_oneof![8 => Just(0i8), 1 => Just(-10i8), 1 => Just(-9i8), 1 => -30i8..=-5, 1 => 5i8..=30]))
         .prop_map(|(n, method, keys, extra, raw, seed, coarse, sign, iter_kind, (inf_sel, inf_raw, inf_neg, scale_exp))| {
             // a random partition of a prefix of the 96 terms into n non-empty sets
             let mut order: Vec<(u16, u32)> = keys.iter().enumerate().map(|(i, k)| (*k, i as u32 + 1)).collect();
